@@ -304,6 +304,7 @@ pub fn schedules_for(trace: &[String]) -> Vec<(String, &'static str)> {
             if n > 1 {
                 out.push((format!("{pre}s1,f"), "SF"));
                 out.push((format!("{pre}s{}", n / 2), "S"));
+                out.push((format!("{pre}s{}", n - 1), "S"));
                 out.push((format!("{pre}s1,i,s1"), "SIS"));
             }
         }
